@@ -44,11 +44,37 @@ theorem bonded_lt (n : Nat) (bs : List Bond) (hw : WellFormed n bs) (i j : Nat) 
   have := hw b hb
   omega
 
+theorem mem_insertNat (x y : Nat) (l : List Nat) : y ∈ insertNat x l ↔ y = x ∨ y ∈ l := by
+  induction l with
+  | nil => simp [insertNat]
+  | cons z zs ih =>
+    unfold insertNat
+    split
+    · simp
+    · simp only [List.mem_cons, ih]
+      constructor
+      · rintro (h | h | h)
+        · exact Or.inr (Or.inl h)
+        · exact Or.inl h
+        · exact Or.inr (Or.inr h)
+      · rintro (h | h | h)
+        · exact Or.inr (Or.inl h)
+        · exact Or.inl h
+        · exact Or.inr (Or.inr h)
+
+theorem mem_sortNat (y : Nat) (l : List Nat) : y ∈ sortNat l ↔ y ∈ l := by
+  induction l with
+  | nil => simp [sortNat]
+  | cons z zs ih =>
+    have : sortNat (z :: zs) = insertNat z (sortNat zs) := rfl
+    rw [this, mem_insertNat, ih]
+    simp
+
 /-- The neighbour list of `a` is exactly the atoms bonded to it. -/
 theorem mem_neighbours (n : Nat) (bs : List Bond) (hw : WellFormed n bs) (a x : Nat) :
     x ∈ neighbours bs a ↔ bonded bs a x = true := by
   unfold neighbours
-  rw [List.mem_filterMap, bonded_iff]
+  rw [mem_sortNat, List.mem_filterMap, bonded_iff]
   constructor
   · rintro ⟨b, hb, ho⟩
     have hwf := hw b hb
